@@ -69,6 +69,7 @@ type jsgen struct {
 	budget      int
 	sib         int
 	evalSibs    bool // put the sibling-direct-eval shape into the program
+	annexSibs   bool // put the block-function-with-sibling-locals shape into the program
 }
 
 func (g *jsgen) newID() string { g.id++; return fmt.Sprintf("\"d%d\"", g.id) }
@@ -644,6 +645,55 @@ func (g *jsgen) evalSiblings(c *jctx, ind string) string {
 	return sb.String()
 }
 
+// A sloppy-mode function declared in a block inside a function (its Annex B.3.3 var lives in
+// the function scope) followed by sibling scopes - a block and a closure - that declare more
+// locals than the block has and READ the block function by name: if the hoisted var and a
+// sibling's local end up in one nested slot, the sibling reads its own local instead.
+// Fresh long names only (no parameter/catch/with interplay: those are recorded findings).
+func (g *jsgen) annexSiblings(c *jctx, ind string) string {
+	g.features["annexb-block-function-with-sibling-locals"]++
+	g.sib++
+	k := g.sib
+	fn := fmt.Sprintf("outerFn%d", k)
+	blk := fmt.Sprintf("blockFn%d", k)
+	if c.sc.isFunc {
+		c.sc.addVar(fn)
+	} else {
+		c.sc.addLex(fn)
+	}
+	var sb strings.Builder
+	fmt.Fprintf(&sb, "%sfunction %s(paramA%d) {\n", ind, fn, k)
+	nb := g.r.Intn(3)
+	fmt.Fprintf(&sb, "%s  {\n%s    function %s() {}\n%s    $s(%s, %s);\n", ind, ind, blk, ind, blk, g.newID())
+	for j := 0; j < nb; j++ {
+		fmt.Fprintf(&sb, "%s    let inBlock%d_%d = %s;\n%s    $q(%d, () => $v(inBlock%d_%d));\n", ind, k, j, g.newID(), ind, g.newTag(), k, j)
+	}
+	fmt.Fprintf(&sb, "%s    $q(%d, () => $v(%s));\n%s  }\n", ind, g.newTag(), blk, ind)
+	// sibling block
+	ns := nb + g.r.Range(1, 3)
+	fmt.Fprintf(&sb, "%s  {\n", ind)
+	for j := 0; j < ns; j++ {
+		fmt.Fprintf(&sb, "%s    let sibLocal%d_%d = %s;\n", ind, k, j, g.newID())
+	}
+	fmt.Fprintf(&sb, "%s    $q(%d, () => $v(%s));\n", ind, g.newTag(), blk)
+	for j := 0; j < ns; j++ {
+		fmt.Fprintf(&sb, "%s    $q(%d, () => $v(sibLocal%d_%d));\n", ind, g.newTag(), k, j)
+	}
+	fmt.Fprintf(&sb, "%s  }\n", ind)
+	// sibling closure
+	nc := nb + g.r.Range(1, 3)
+	fmt.Fprintf(&sb, "%s  (function (closArg%d) {\n", ind, k)
+	for j := 0; j < nc; j++ {
+		fmt.Fprintf(&sb, "%s    let closLocal%d_%d = %s;\n", ind, k, j, g.newID())
+	}
+	fmt.Fprintf(&sb, "%s    $q(%d, () => $v(%s));\n%s    $q(%d, () => typeof %s === \"function\" ? $v(%s) : \"none\");\n", ind, g.newTag(), blk, ind, g.newTag(), blk, blk)
+	for j := 0; j < nc; j++ {
+		fmt.Fprintf(&sb, "%s    $q(%d, () => $v(closLocal%d_%d));\n", ind, g.newTag(), k, j)
+	}
+	fmt.Fprintf(&sb, "%s  })(%s);\n%s  $q(%d, () => $v(%s));\n%s}\n%s%s(%s);\n", ind, g.newID(), ind, g.newTag(), blk, ind, ind, fn, g.newID())
+	return sb.String()
+}
+
 // a whole script (classic script: runs in a vm context)
 func (g *jsgen) script(nstmts int) (src string, top []string) {
 	ts := newScope(nil, true)
@@ -658,6 +708,9 @@ func (g *jsgen) script(nstmts int) (src string, top []string) {
 	}
 	if g.evalSibs && g.r.Bool() {
 		sb.WriteString(g.evalSiblings(c, ""))
+	}
+	if g.annexSibs {
+		sb.WriteString(g.annexSiblings(c, ""))
 	}
 	sb.WriteString(g.body(c, 0, "", nstmts))
 	if g.evalSibs {
